@@ -22,7 +22,7 @@ FUNCTIONS = ["wannierberri.calculators.static.StaticCalculator.__init__/__call__
              "tetrahedron.get_bands_in_range/get_borders/get_bands_below_range", "utility.weight_select_bands", "EnergyResult / K__Result construction"]
 BOUNDS = dict(quick=dict(nb="2..3", nk="1 (2 for nb=2)", fermi_levels="3 on a uniform grid e0 + j*h with symbolic e0, h", fder="0..3", thresholds="symbolic degen_thresh>0",
                          formulas="stub additive (per-band atoms) and non-additive (per-boundary atoms), rank 0; real Identity for DOS/CumDOS"),
-              thorough=dict(nb="2..4", nk="1..2", fermi_levels="3..4", fder="0..3", thresholds="symbolic", formulas="as quick plus rank 1"))
+              thorough=dict(nb="2..4 (CumDOS: 5)", nk="1..2 (3 for nb=2, fder=0)", fermi_levels="3..5", fder="0..3", thresholds="symbolic", formulas="as quick plus rank 1"))
 EXPLANATION = ("StaticCalculator.__call__ runs on a Data_K shell with symbolic sorted band energies, a symbolic uniform Fermi grid and symbolic degeneracy threshold; "
                "formula traces are symbolic atoms. Every placement of groups relative to the Fermi bins is a path; on each z3 decides that the sea value is the "
                "k-average over whole groups with mean energy <= E_F, that fder=n equals the n-th central difference of the sea result on the extended grid, "
@@ -299,20 +299,30 @@ def cases(tier, seed):
     for nb in ((2, 3) if q else (2, 3, 4)):
         for fder in range(4):
             for additive in (True, False):
-                if nb == 4 and (fder > 1 or not additive):
+                if nb == 4 and (fder > 2 or (not additive and fder > 0)):
                     continue
-                nEF = 3 if (q or nb == 4) else (4 if fder < 2 else 3)
+                nEF = 3 if (q or nb == 4) else (5 if fder < 2 else 4)
                 out.append(Case(f"sea nb={nb} nk=1 nEF={nEF} fder={fder} additive={additive}", case_sea,
                                 dict(nb=nb, nk=1, nEF=nEF, fder=fder, additive=additive), timeout=1200 if q else 3000))
     for fder in (0, 1):
         out.append(Case(f"sea nb=2 nk=2 fder={fder} k_resolved", case_sea, dict(nb=2, nk=2, nEF=2, fder=fder, additive=True, k_resolved=True), timeout=1200 if q else 3000))
         out.append(Case(f"sea nb=2 nk=2 fder={fder}", case_sea, dict(nb=2, nk=2, nEF=2, fder=fder, additive=fder == 0), timeout=1200 if q else 3000))
+    if not q:
+        # (fder >= 1 on these sizes ran past 40000 paths in the sizing run: the extended Fermi grid multiplies the placements)
+        out.append(Case("sea nb=3 nk=2 nEF=2 fder=0 k_resolved", case_sea, dict(nb=3, nk=2, nEF=2, fder=0, additive=True, k_resolved=True), timeout=6000))
+        out.append(Case("sea nb=2 nk=3 nEF=2 fder=0", case_sea, dict(nb=2, nk=3, nEF=2, fder=0, additive=True), timeout=6000))
+        for sel in ([0, 1], [1, 2], [2]):
+            out.append(Case(f"sea nb=3 select={sel} fder=1 nEF=3", case_sea, dict(nb=3, nk=1, nEF=3, fder=1, additive=True, select=sel), timeout=6000))
+        out.append(Case("sea nb=4 select=[0,3] fder=1", case_sea, dict(nb=4, nk=1, nEF=2, fder=1, additive=True, select=[0, 3]), timeout=6000))
     out.append(Case("sea nb=3 select=[0,2] fder=1", case_sea, dict(nb=3, nk=1, nEF=2, fder=1, additive=True, select=[0, 2]), timeout=1200))
     out.append(Case("sea nb=2 select=[1] fder=0 refused", case_sea, dict(nb=2, nk=1, nEF=2, fder=0, additive=True, select=[1]), timeout=600))
     for fder in (0, 1):
         out.append(Case(f"tetra nb=2 fder={fder}", case_tetra, dict(nb=2, fder=fder, degenerate=False), timeout=1200 if q else 3000))
     out.append(Case("tetra nb=2 fder=0 degenerate pair", case_tetra, dict(nb=2, fder=0, degenerate=True), timeout=1200 if q else 3000))
-    for nb, nk in ((2, 1), (3, 1), (2, 2)) + (() if q else ((4, 1),)):
+    if not q:
+        out.append(Case("tetra nb=3 fder=0", case_tetra, dict(nb=3, fder=0, degenerate=False), timeout=6000))
+        out.append(Case("tetra nb=3 fder=1 degenerate pair", case_tetra, dict(nb=3, fder=1, degenerate=True), timeout=6000))
+    for nb, nk in ((2, 1), (3, 1), (2, 2)) + (() if q else ((4, 1), (3, 2), (5, 1))):
         out.append(Case(f"cumdos nb={nb} nk={nk}", case_cumdos, dict(nb=nb, nk=nk, nEF=3), timeout=1200 if q else 3000))
     return out
 
